@@ -84,7 +84,8 @@ func extractKeysWeightsAggregateWithScores(cmd []string) ([]string, []float64, s
 		return strings.EqualFold(s, "aggregate")
 	})
 	if aggregateIndex != -1 {
-		if !slices.Contains([]string{"sum", "min", "max"}, strings.ToLower(cmd[aggregateIndex+1])) {
+		if aggregateIndex+1 >= len(cmd) ||
+			!slices.Contains([]string{"sum", "min", "max"}, strings.ToLower(cmd[aggregateIndex+1])) {
 			return []string{}, []float64{}, "", false, errors.New("aggregate must be SUM, MIN, or MAX")
 		}
 		aggregate = strings.ToLower(cmd[aggregateIndex+1])
